@@ -227,9 +227,8 @@ def cmd_text(ws, l):
                 L.append('cat "$W/' + p + '" >> "$c"')
     if t.get("split"):
         L.append('n=$(wc -l < "$c.l")')
-    for k, o in enumerate(sorted_outs(t)):
-        if o["rel"] in t.get("skip", []) or o.get("bin"):
-            continue
+    written = [o for o in sorted_outs(t) if o["rel"] not in t.get("skip", []) and not o.get("bin")]
+    for k, o in enumerate(written):
         p = out_path(t, o)
         hdr = "printf 'T %s %s\\n' " + q(t["salt"]) + " " + q(p)
         if o["dir"]:
@@ -946,8 +945,14 @@ def gen_edit(rng, ws, kinds=None):
         return ws, [], "%s stops writing %s" % (l, t["skip"][0])
     if k == "skipfresh":
         # the command stops writing one declared output (first / middle / last, file or dir::) and the output is not there
-        cands = [o for o in t["outs"]]
-        if not cands or t.get("skip"):
+        withdir = [x for x in labels if any(o["dir"] for o in ws["targets"][x]["outs"]) and not ws["targets"][x].get("skip")]
+        if withdir and rng.random() < 0.5:
+            l = rng.choice(withdir)
+            t = ws["targets"][l]
+            cands = [o for o in t["outs"] if o["dir"]]
+        else:
+            cands = [o for o in t["outs"]]
+        if not cands or t.get("skip") or t.get("split"):
             return None
         o = rng.choice(cands)
         t["skip"] = [o["rel"]]
@@ -1007,7 +1012,7 @@ def gen_history(rng, family="mixed", nsteps=None, full=False, minimal=None):
     if family in ("nocache", "taint", "minimal-nocache"):
         kw["nocache_p"] = 0.3
     if family == "checks":
-        kw.update(checks_p=0.6, multicheck=True, multi_out=True)
+        kw.update(checks_p=0.6, multicheck=True, multi_out=True, dir_p=0.5)
     if family in ("outless", "taintdis"):
         kw.update(outless_p=0.4, nocache_p=0.25)
     if family == "tool":
@@ -1019,10 +1024,16 @@ def gen_history(rng, family="mixed", nsteps=None, full=False, minimal=None):
     if family == "dirs":
         kw.update(dir_p=0.8)
     ws = gen_ws(rng, **kw)
+    if family == "dirs" and not any(any(o["dir"] for o in t_["outs"]) and any("*" in g for g in t_["globs"]) for t_ in ws["targets"].values()):
+        for x in sorted(ws["targets"]):
+            xt = ws["targets"][x]
+            if any("*" in g for g in xt["globs"]) and not xt.get("split"):
+                xt["outs"].append({"dir": True, "rel": "dist%s" % xt["name"][1:]})
+                break
     if family == "tool":
         # make sure some script target (input == bin_output, usually no-cache) has a dependant that reads the script
         order = sorted(ws["targets"], key=lambda x: int(ws["targets"][x]["name"][1:]))
-        tools = [x for x in order if ws["targets"][x].get("bin")]
+        tools = [x for x in order[:-1] if ws["targets"][x].get("bin")]
         if not tools:
             x = order[0]
             xt = ws["targets"][x]
@@ -1034,6 +1045,10 @@ def gen_history(rng, family="mixed", nsteps=None, full=False, minimal=None):
             tools = [x]
         x = tools[0]
         ws["targets"][x]["nocache"] = True
+        # the script is the only output: the generic command copies every input into every generated output, which would
+        # make the other outputs change with the script and invalidate the dependants anyway
+        ws["targets"][x]["outs"] = []
+        ws["targets"][x]["split"] = False
         later = [y for y in order if order.index(y) > order.index(x)]
         if later:
             y = later[0]
@@ -1099,7 +1114,29 @@ def gen_history(rng, family="mixed", nsteps=None, full=False, minimal=None):
                 versions.append(cur)
                 build(["//..."])
                 continue
-        if family == "dirs" and r < 0.3 and len(versions) >= 2:
+        if family == "dirs" and r < 0.35:
+            cand = [x for x in sorted(cur["targets"]) if any(o["dir"] for o in cur["targets"][x]["outs"])
+                    and any("*" in g for g in cur["targets"][x]["globs"])]
+            if cand:
+                x = rng.choice(cand)
+                xt = cur["targets"][x]
+                g = [g for g in xt["globs"] if "*" in g][0]
+                newf = (xt["pkg"] + "/" if xt["pkg"] else "") + g.replace("/**/", "/d3/").replace("*", "m%d" % rng.randint(0, 99))
+                w1 = copy.deepcopy(cur)
+                w1["files"][newf] = "a%d\n" % rng.randint(0, 99)
+                hist["steps"].append({"k": "edit", "ws": w1, "writes": [], "what": "add %s" % newf})
+                build(["//..."])
+                hist["steps"].append({"k": "edit", "ws": cur, "writes": [], "what": "remove %s again (the directory output shrinks back)" % newf})
+                versions.append(cur)
+                if rng.random() < 0.5:
+                    e = gen_edit(rng, cur, ["salt"])
+                    if e:
+                        hist["steps"].append({"k": "edit", "ws": e[0], "writes": e[1], "what": e[2]})
+                        cur = e[0]
+                        versions.append(cur)
+                build(["//..."])
+                continue
+        if family == "dirs" and r < 0.5 and len(versions) >= 2:
             cur = versions[-2]
             versions.append(cur)
             hist["steps"].append({"k": "edit", "ws": cur, "writes": [], "what": "revert sources to an earlier version"})
@@ -1111,7 +1148,7 @@ def gen_history(rng, family="mixed", nsteps=None, full=False, minimal=None):
                     versions.append(cur)
             build()
             continue
-        if family == "dirs" and r < 0.55:
+        if family == "dirs" and r < 0.75:
             tp = gen_tamper(rng, cur, kinds=("moddir", "extradir", "rmindir", "rmdir"), prefer_dirs=1.0)
             if tp:
                 hist["steps"].append({"k": "edit", "ws": cur, "writes": tp[0], "what": "tamper: " + tp[1]})
@@ -1214,6 +1251,9 @@ def gen_history(rng, family="mixed", nsteps=None, full=False, minimal=None):
             hist["steps"].append({"k": "edit", "ws": e[0], "writes": e[1], "what": e[2]})
             cur = e[0]
             versions.append(cur)
+            if " stops writing " in e[2] and rng.random() < 0.7:
+                build([e[2].split(" stops writing ")[0]])       # the verdict of this build is the verdict of that target
+                continue
         build()
     return hist
 
